@@ -18,7 +18,11 @@ RULE = ("cases = (period_cyc, clk_stretch) x behaviour; cooperative: random oper
         "held until SCL falls; random clock stretching after falling edges when clk_stretch is on, incl. stretches that "
         "end within +-2 cycles of the initiator's own release); the read-data / ack_o checks judge against the SDA "
         "level during the SCL-high period; chaotic: strobes at any time incl. several at once, target pulling SDA/SCL "
-        "at random")
+        "at random; the target keeps its ACK (and every late bit) on SDA until SCL falls again, so a repeated START "
+        "requested straight after an acknowledged write finds SCL high and SDA held low by the TARGET; cooperative runs "
+        "also check the wire (pad lines = AND of both open-drain drivers): every accepted start shows SDA falling while "
+        "SCL is high before busy drops (start-condition-missing; a start strobed within 3 cycles of the previous "
+        "START's own SDA fall is not judged)")
 ASSUMPTIONS = [
     "pads are open drain with both lines bidirectional (I2CBus record); the two-stage FFSynchronizer is modelled as "
     "the fixed 2-cycle delay pysim gives it",
@@ -285,6 +289,22 @@ def monitor(desc, stim, rows):
         if te is None:
             continue
         rises = [u for u in range(t0 + 1, te) if stim[u - 1][0] == 0 and stim[u][0] == 1]
+        if name == "start":
+            # a requested START / repeated START must appear ON THE WIRE (open-drain lines = AND of both drivers, the pad
+            # inputs of the trace): SDA falls while SCL is high before and after, some time before busy drops again
+            line_low = stim[t0][0] == 1 and stim[t0][1] == 0 and not rows[t0][1]
+            tags.add("start-with-target-holding-sda" if line_low else "start-sda-driven-low" if rows[t0][1] else
+                     "start-scl-low" if stim[t0][0] == 0 else "start-bus-free")
+            # not judged: a start strobed within the synchroniser latency of the previous START's own SDA fall (start directly
+            # after start, nothing transferred in between): the gateware still sees SDA high, "pulls" the already low line
+            # and the bus simply stays in the started state -- the property text does not decide that case
+            if k > 0 and ops[k - 1][0] == "start" and rows[t0][1] and any(not rows[u][1] for u in range(max(0, t0 - 3), t0)):
+                tags.add("start-directly-after-start (not judged)")
+            elif not any(stim[u - 1][0] == 1 and stim[u][0] == 1 and stim[u - 1][1] == 1 and stim[u][1] == 0
+                         for u in range(t0 + 1, te + 1)):
+                fail(te, "start-condition-missing", "start accepted at cycle %d (SCL line %d, SDA line %d, initiator's sda.oe %d), "
+                     "busy low again at cycle %d, but SDA never fell while SCL was high in between: no START condition on "
+                     "the bus" % (t0, stim[t0][0], stim[t0][1], rows[t0][1], te))
         if name == "write":
             if len(rises) != 9:
                 fail(te, "write-clock-count", "write produced %d SCL pulses" % len(rises))
